@@ -95,6 +95,49 @@ class OrderBackend(ParallelBackendBase):
         self.pending = []
 
 
+class InterleaveBackend(OrderBackend):
+    """Like OrderBackend, but two tasks of ONE chosen Parallel call are executed on two real
+    threads under the Interleaver (the rest of the program - the other tasks, the code before
+    and after the call - runs normally), so the *whole* operation can be compared with its
+    sequential result and everything the tasks share stays shared."""
+
+    def __init__(self, target_call=0, pair=(0, 1), first=0, switches=(), granularity="line", **kw):
+        super().__init__(**kw)
+        self.granularity = granularity
+        self.target_call, self.pair, self.first = target_call, tuple(pair), first
+        self.switches = [tuple(x) for x in switches]
+        self.counts = None
+
+    def run_pending(self):
+        while self.pending:
+            batch, self.pending = self.pending, []
+            call_no = len(self.calls)
+            self.calls.append(len(batch))
+            todo = list(range(len(batch)))
+            if call_no == self.target_call and len(batch) > max(self.pair):
+                i, j = self.pair
+                results, counts, _ = Interleaver(granularity=self.granularity)._run(
+                    [batch[i].func, batch[j].func], self.first, self.switches)
+                self.counts = counts
+                for d, (ok, val) in zip((batch[i], batch[j]), results):
+                    if ok:
+                        d.result = val
+                    else:
+                        d.exc = val
+                    d.done = True
+                todo = [k for k in todo if k not in (i, j)]
+            for k in todo:
+                d = batch[k]
+                try:
+                    d.result = d.func()
+                except BaseException as e:  # noqa
+                    d.exc = e
+                d.done = True
+            for d in batch:
+                if d.callback is not None:
+                    d.callback(d)
+
+
 _REGISTERED = []
 
 
@@ -104,6 +147,40 @@ def order_backend(**kw):
         register_parallel_backend("verif_order", OrderBackend)
         _REGISTERED.append(1)
     return parallel_backend("verif_order", **kw)
+
+
+def interleave_backend(**kw):
+    if "verif_interleave" not in _REGISTERED:
+        register_parallel_backend("verif_interleave", InterleaveBackend)
+        _REGISTERED.append("verif_interleave")
+    return parallel_backend("verif_interleave", **kw)
+
+
+def explore_call_interleavings(thunk, target_call, pair=(0, 1), first=0, idx=0, nchunks=1,
+                               cap=None, granularity="line"):
+    """run the whole ``thunk`` with tasks ``pair`` of its ``target_call``-th Parallel call
+    interleaved: no preemption, then every single preemption point of thread ``first`` in the
+    slice idx mod nchunks.  Yields (switches, (ok, value), counts)."""
+    def run(switches):
+        with interleave_backend(target_call=target_call, pair=pair, first=first,
+                                switches=switches, granularity=granularity) as (b, _):
+            try:
+                val = (True, thunk())
+            except Exception as e:  # noqa
+                val = (False, e)
+        return val, b.counts
+
+    val, counts = run([])
+    yield [], val, counts
+    if counts is None:
+        return
+    k = 0
+    for p in range(1 + idx, counts[first] + 1, nchunks):
+        if cap is not None and k >= cap:
+            return
+        k += 1
+        val, _ = run([(first, p)])
+        yield [(first, p)], val, counts
 
 
 def inversions(p):
@@ -192,8 +269,12 @@ class Interleaver:
 
     HORIZON = 200000
 
-    def __init__(self, root=None):
+    def __init__(self, root=None, granularity="line"):
         self.root = root or compat.REPO
+        # "line": hand-over points before every source line of a repository frame;
+        # "opcode": before every bytecode instruction (finds read-modify-write races inside one
+        # statement such as ``total[0] += x``)
+        self.granularity = granularity
 
     def _run(self, thunks, first, switches):
         """switches: list of (tid, n): preempt thread tid after its n-th traced line event.
@@ -215,9 +296,11 @@ class Interleaver:
             sems[nxt].release()
             return True
 
+        gran = self.granularity
+
         def make_tracer(tid):
             def local(frame, event, arg):
-                if event == "line":
+                if event == gran:
                     state["counts"][tid] += 1
                     state["events"] += 1
                     if state["events"] > self.HORIZON:
@@ -231,6 +314,8 @@ class Interleaver:
 
             def glob(frame, event, arg):
                 if event == "call" and frame.f_code.co_filename.startswith(root):
+                    if gran == "opcode":
+                        frame.f_trace_opcodes = True
                     return local
                 return None
 
